@@ -631,10 +631,11 @@ Section Sim.
       pose proof (frun_state pb _ _ _ _ _ _ E1) as Hs1.
       pose proof (dpath_state _ _ _ _ _ _ _ Hp) as Hs1'.
       assert (s1 = s') by congruence. subst s1.
-      simpl in Hr. destruct (var_ok pb (k + length ds) d && in_domain pb s' d); [|discriminate].
-      inversion Hr; subst s'' v'.
+      cbn [frun] in Hr.
+      match type of Hr with context [if ?c then _ else _] => destruct c end; [|discriminate].
+      injection Hr as _ Hv'. subst v'.
       destruct (E_inb _ HE t' eid Ht' Hin) as (_ & G2 & _). rewrite Hf in G2.
-      eapply Z.le_trans; [|exact G2]. apply sat_add_ge; [exact Hisov|]. rewrite Hd. lia.
+      eapply Z.le_trans; [|exact G2]. apply sat_add_ge; [exact Hisov|]. rewrite <- Hs1'. lia.
   Qed.
 
   Lemma dpath_vtop m ds u s' :
@@ -650,10 +651,426 @@ Section Sim.
   Proof.
     intros HE Hp. induction Hp as [i u s Hu Hc|i u s ds t s' d eid t' Hp IH Hlay Ht' He Hin Hf Hd Hcost Hcov];
       intros Hs Hex.
-    - split; [exact Hs|]. split; [lia|exact Hex].
+    - split; [exact Hs|]. split; [simpl; lia|exact Hex].
     - destruct (E_inb _ HE t' eid Ht' Hin) as (_ & _ & G3). destruct (G3 Hex) as (X1 & X2 & X3).
       rewrite Hf in X1, X2, X3. rewrite Hd in X2.
       destruct (IH Hs X1) as (I1 & I2 & I3).
       split; [rewrite X2, I1; reflexivity|]. split; [|exact I3].
       rewrite X3, I2, app_length. simpl. lia.
+  Qed.
+
+  (* ---------------------------------------------------------------- 2d. the filters do nothing here *)
+  Lemma filter_with_cache_nocache l : forall m, snd (filter_with_cache st_eqb inp m l) = l.
+  Proof.
+    induction l as [|id l IH]; intros m; [reflexivity|].
+    cbn [filter_with_cache]. cbv zeta. unfold cache_get. rewrite Hnocache.
+    match goal with |- context [filter_with_cache st_eqb inp ?mm l] =>
+      specialize (IH mm); destruct (filter_with_cache st_eqb inp mm l) as [m2 r] end.
+    simpl in *. congruence.
+  Qed.
+
+  Lemma dom_retain_nodom l : forall m, snd (dom_retain inp m l) = l.
+  Proof.
+    induction l as [|id l IH]; intros m; [reflexivity|].
+    cbn [dom_retain]. cbv zeta. destruct (fl_is_exact (n_flags (gn m id))).
+    - unfold dom_query. rewrite Hnodom. cbn [dc_dominated].
+      match goal with |- context [dom_retain inp ?mm l] =>
+        specialize (IH mm); destruct (dom_retain inp mm l) as [m2 r] end.
+      simpl in *. congruence.
+    - specialize (IH m). destruct (dom_retain inp m l) as [m2 r]. simpl in *. congruence.
+  Qed.
+
+  Lemma filter_with_dominance_nodom m l x :
+    In x (snd (filter_with_dominance inp m l)) <-> In x l.
+  Proof. unfold filter_with_dominance. rewrite dom_retain_nodom. apply sort_by_In. Qed.
+
+  (* ---------------------------------------------------------------- 2e. branch_on *)
+  Lemma branch_on_spec (m : mdd) id d :
+    (forall x, In x (m_next m) -> x < length (m_nodes m)) ->
+    let m' := branch_on st_eqb inp m id d in
+    let s := n_state (gn m id) in
+    exists t, In t (m_next m') /\ t < length (m_nodes m') /\
+      In (length (m_edges m)) (n_inb (gn m' t)) /\
+      get_edge m' (length (m_edges m)) =
+        {| e_from := id; e_to := t; e_dec := d; e_cost := transition_cost pb s (transition pb s d) d |} /\
+      n_state (gn m' t) = transition pb s d /\
+      length (m_edges m') = S (length (m_edges m)).
+  Proof.
+    intros Hnext. cbv zeta. unfold branch_on. cbv zeta.
+    set (s := n_state (gn m id)).
+    set (ns := transition (ci_problem inp) s d).
+    set (cost := transition_cost (ci_problem inp) s ns d).
+    set (m1 := add_log (add_log m (EvTransition s d ns)) (EvCost s ns d cost)).
+    assert (Hgn1 : forall k, gn m1 k = gn m k) by reflexivity.
+    destruct (find_next st_eqb inp m1 ns) as [t|] eqn:Hfind.
+    - unfold find_next in Hfind. apply find_some in Hfind. destruct Hfind as [Hin Heq].
+      apply st_eqb_spec in Heq. change (m_next m1) with (m_next m) in Hin.
+      pose proof (Hnext t Hin) as Ht.
+      set (e := {| e_from := id; e_to := t; e_dec := d; e_cost := cost |}).
+      exists t. split; [exact Hin|]. split; [msimpl; rewrite upd_nth_length; exact Ht|].
+      split; [|split; [|split]].
+      + change t with (e_to e) at 1. rewrite gn_append_same by exact Ht. cbv zeta. nsimpl. left; reflexivity.
+      + apply (ge_snoc_new m1 _ e). reflexivity.
+      + change t with (e_to e). rewrite gn_append_same by exact Ht. cbv zeta. nsimpl. exact Heq.
+      + msimpl. rewrite app_length. simpl. lia.
+    - set (t := length (m_nodes m1)).
+      set (n := {| n_state := ns; n_vtop := sat_add (n_vtop (gn m id)) cost; n_vbot := IMIN;
+                   n_best := None; n_inb := []; n_rub := IMAX; n_theta := None;
+                   n_flags := fl_set_exact fl_new_exact (fl_is_exact (n_flags (gn m id)));
+                   n_depth := S (n_depth (gn m id)) |}).
+      set (m2 := with_nodes m1 (m_nodes m1 ++ [n])).
+      set (e := {| e_from := id; e_to := t; e_dec := d; e_cost := cost |}).
+      set (m3 := append_edge inp m2 e).
+      assert (Hlen2 : length (m_nodes m2) = S t) by apply len_snoc.
+      assert (Hgn2new : gn m2 t = n) by apply gn_snoc_new.
+      assert (Ht2 : e_to e < length (m_nodes m2)) by (simpl e_to; lia).
+      exists t. change (gn (with_next m3 (m_next m3 ++ [t]))) with (gn m3).
+      split; [msimpl; apply in_or_app; right; left; reflexivity|].
+      assert (Hlen3 : length (m_nodes m3) = S t).
+      { unfold m3. msimpl. rewrite upd_nth_length. exact Hlen2. }
+      split; [change (t < length (m_nodes m3)); lia|].
+      split; [|split; [|split]].
+      + unfold m3. change t with (e_to e) at 1. rewrite gn_append_same by exact Ht2. cbv zeta. nsimpl. left; reflexivity.
+      + apply (ge_snoc_new m2 _ e). reflexivity.
+      + unfold m3. change t with (e_to e). rewrite gn_append_same by exact Ht2. cbv zeta. nsimpl.
+        simpl e_to. rewrite Hgn2new. reflexivity.
+      + change (length (m_edges m3) = S (length (m_edges m))). unfold m3. msimpl.
+        rewrite app_length. simpl. lia.
+  Qed.
+
+  Lemma Einv_branch_on (m : mdd) id d :
+    Einv m -> id < m_layer_end m ->
+    (forall x, In x (m_next m) -> m_layer_end m <= x < length (m_nodes m) /\
+                                 n_depth (gn m x) = S (n_depth (gn m id))) ->
+    Einv (branch_on st_eqb inp m id d).
+  Proof.
+    intros HE Hid Hnext. unfold branch_on. cbv zeta.
+    set (s := n_state (gn m id)).
+    set (ns := transition (ci_problem inp) s d).
+    set (cost := transition_cost (ci_problem inp) s ns d).
+    set (m1 := add_log (add_log m (EvTransition s d ns)) (EvCost s ns d cost)).
+    assert (HE1 : Einv m1).
+    { eapply Einv_frame; [| | | |exact HE]; try reflexivity. apply (E_le _ HE). }
+    assert (Hgn1 : forall k, gn m1 k = gn m k) by reflexivity.
+    destruct (find_next st_eqb inp m1 ns) as [t|] eqn:Hfind.
+    - unfold find_next in Hfind. apply find_some in Hfind. destruct Hfind as [Hin Heq].
+      apply st_eqb_spec in Heq. change (m_next m1) with (m_next m) in Hin.
+      destruct (Hnext t Hin) as [Hr Hd].
+      apply Einv_append_edge; nsimpl.
+      + exact HE1.
+      + exact Hid.
+      + change (m_layer_end m1) with (m_layer_end m). lia.
+      + change (length (m_nodes m1)) with (length (m_nodes m)). lia.
+      + intros _ _. rewrite !Hgn1. split; [exact Heq|exact Hd].
+    - set (t := length (m_nodes m1)).
+      set (n := {| n_state := ns; n_vtop := sat_add (n_vtop (gn m id)) cost; n_vbot := IMIN;
+                   n_best := None; n_inb := []; n_rub := IMAX; n_theta := None;
+                   n_flags := fl_set_exact fl_new_exact (fl_is_exact (n_flags (gn m id)));
+                   n_depth := S (n_depth (gn m id)) |}).
+      set (m2 := with_nodes m1 (m_nodes m1 ++ [n])).
+      assert (HE2 : Einv m2) by (apply Einv_snoc; [exact HE1|reflexivity]).
+      pose proof (E_le _ HE1) as Hle1.
+      assert (HE3 : Einv (append_edge inp m2 {| e_from := id; e_to := t; e_dec := d; e_cost := cost |})).
+      { apply Einv_append_edge; nsimpl.
+        - exact HE2.
+        - exact Hid.
+        - change (m_layer_end m2) with (m_layer_end m1). exact Hle1.
+        - unfold m2. rewrite len_snoc. unfold t. lia.
+        - intros _ _. unfold m2, t. rewrite gn_snoc_new.
+          rewrite gn_snoc_old by (change (m_layer_end m1) with (m_layer_end m) in Hle1; lia).
+          rewrite Hgn1. split; reflexivity. }
+      eapply Einv_frame; [| | | |exact HE3]; try reflexivity. apply (E_le _ HE3).
+  Qed.
+
+  (* ---------------------------------------------------------------- 2f. expand_node *)
+  Definition Cinv (dn : nat) (m : mdd) : Prop :=
+    Dinv inp m /\ Xinv inp m /\ next_depth inp dn m /\ Einv m.
+
+  Lemma branch_on_Cinv (m : mdd) id d :
+    Cinv (S (n_depth (gn m id))) m -> id < m_layer_end m ->
+    in_domain pb (n_state (gn m id)) d = true ->
+    (exists states, next_variable pb (n_depth (gn m id)) states = Some (d_var d)) ->
+    Cinv (S (n_depth (gn m id))) (branch_on st_eqb inp m id d) /\
+    stable inp m (branch_on st_eqb inp m id d).
+  Proof.
+    intros (HD & HX & Hnd & HE) Hid Hdom Hv.
+    destruct (branch_on_inv st_eqb st_eqb_spec inp Hclean m id d HD HX Hid Hnd Hdom Hv) as (B1 & B2 & B3 & B4).
+    split; [|exact B3]. split; [exact B1|]. split; [exact B2|]. split; [exact B4|].
+    apply Einv_branch_on; auto. intros x Hx. split; [apply (D_next _ _ _ HD x Hx)|apply Hnd; exact Hx].
+  Qed.
+
+  Lemma prefix_isize ds s' v' h :
+    frn rd rs rv ds = Some (s', v') -> rd + length ds <= N -> H pb (rd + length ds) s' = Some h ->
+    in_isize (v' + h).
+  Proof.
+    intros Hr Hle Hh.
+    destruct (H_attained pb nv_static nv_some nv_none (N - (rd + length ds)) (rd + length ds) s' v' h eq_refl Hle Hh)
+      as (ds2 & s2 & Hr2 & _).
+    apply (guard_isize (ds ++ ds2) s2). rewrite frun_app, Hr. exact Hr2.
+  Qed.
+
+  Lemma expand_node_track var (m : mdd) u ds s' v' dval h :
+    let d := {| d_var := var; d_val := dval |} in
+    let dn := S (n_depth (gn m u)) in
+    Cinv dn m -> u < m_layer_end m ->
+    (exists states, next_variable pb (n_depth (gn m u)) states = Some var) ->
+    (rv <= n_vtop (gn m 0))%Z ->
+    In u (nth (length ds) (m_layers m) []) ->
+    dpath m 0 0 rs ds u s' -> frn rd rs rv ds = Some (s', v') -> rd + length ds <= N ->
+    In dval (domain pb var s') ->
+    H pb (rd + length ds) s' = Some h -> (lb < v' + h)%Z ->
+    let m' := expand_node st_eqb inp var m u in
+    exists t', In t' (m_next m') /\ dpath m' 0 0 rs (ds ++ [d]) t' (transition pb s' d).
+  Proof.
+    intros d dn HC Hu Hvar Hroot Hlay Hp Hr Hle Hdv Hh Hprom. cbv zeta.
+    pose proof (dpath_range _ _ _ _ _ _ _ Hp) as Hulen.
+    pose proof (dpath_cov _ _ _ _ _ _ _ Hp) as Hcov.
+    destruct HC as (HD & HX & Hnd & HE).
+    pose proof (dpath_vtop m ds u s' HE Hp Hroot _ _ Hr) as Hvt.
+    pose proof (rub_adm _ _ _ _ Hcov Hh) as Hrub.
+    pose proof (prefix_isize _ _ _ _ Hr Hle Hh) as Hiso.
+    unfold expand_node. cbv zeta.
+    set (state := n_state (gn m u)) in *.
+    set (m1 := upd_node m u (fun n => set_rub n (fast_upper_bound (ci_relax inp) state))).
+    assert (Hc1 : ceq inp m m1) by (apply ceq_upd_node; intros n; apply core_eq_set_rub).
+    assert (Hvt1 : n_vtop (gn m1 u) = n_vtop (gn m u)).
+    { destruct Hc1 as ((_ & _ & _ & A4) & _). destruct (A4 u) as (_ & c2 & _). symmetry; exact c2. }
+    assert (Hub : (sat_add (fast_upper_bound (ci_relax inp) state) (n_vtop (gn m1 u)) >? ci_best_lb inp)%Z = true).
+    { apply Z.gtb_lt. fold lb. eapply Z.lt_le_trans; [exact Hprom|].
+      apply sat_add_ge; [exact Hiso|]. rewrite Hvt1. fold rlx. lia. }
+    rewrite Hub.
+    set (m2 := add_log m1 (EvDomain var state)).
+    assert (Hc2 : ceq inp m m2) by (eapply ceq_trans; [exact Hc1|apply ceq_add_log]).
+    assert (Hg2 : gr m m2).
+    { apply (gr_trans m m1 m2); [unfold m1; apply gr_upd_node; intros; reflexivity|apply gr_add_log]. }
+    destruct (cov_sim _ _ var dval Hcov Hdv) as (Sd & Scov & Scost). fold d in Scov, Scost.
+    set (Inv := fun a : mdd => Cinv dn a /\ stable inp m a /\ gr m a).
+    set (P := fun a : mdd => exists t', In t' (m_next a) /\ dpath a 0 0 rs (ds ++ [d]) t' (transition pb s' d)).
+    assert (Hstep : forall a val, In val (domain pb var state) -> Inv a ->
+              Inv (branch_on st_eqb inp a u {| d_var := var; d_val := val |})).
+    { intros a val Hval (Ca & Sa & Ga).
+      pose proof Sa as (s1 & s2 & s3 & s4 & s5).
+      destruct (s4 u Hulen) as [Hs Hdp].
+      assert (Hdn : dn = S (n_depth (gn a u))) by (unfold dn; rewrite Hdp; reflexivity).
+      rewrite Hdn in Ca.
+      destruct (branch_on_Cinv a u {| d_var := var; d_val := val |} Ca) as [C' S'].
+      - rewrite s1. exact Hu.
+      - rewrite Hs. apply In_in_domain. exact Hval.
+      - rewrite Hdp. exact Hvar.
+      - split; [rewrite Hdn; exact C'|]. split; [eapply stable_trans; eauto|].
+        eapply gr_trans; [exact Ga|apply gr_branch_on]. }
+    assert (Hinv2 : Inv m2).
+    { split; [|split; [apply ceq_stable; exact Hc2|exact Hg2]].
+      split; [eapply Dg_ceq; eauto|]. split; [eapply Xinv_ceq; eauto|]. split; [|eapply Einv_ceq; eauto].
+      intros k Hk. destruct Hc2 as ((_ & _ & _ & A4) & Hn & _). rewrite Hn in Hk.
+      destruct (A4 k) as (_ & _ & _ & _ & _ & _ & c7). rewrite <- c7. apply Hnd; exact Hk. }
+    (* run the fold, remembering membership of the values *)
+    assert (G : forall l a, incl l (domain pb var state) -> Inv a ->
+              (In dval l \/ P a) ->
+              P (fold_left (fun m0 val => branch_on st_eqb inp m0 u {| d_var := var; d_val := val |}) l a)).
+    { induction l as [|val l IH]; intros a Hincl Ia Hor; simpl.
+      - destruct Hor as [[]|Hor]; exact Hor.
+      - assert (Hval : In val (domain pb var state)) by (apply Hincl; left; reflexivity).
+        apply IH.
+        + intros y Hy. apply Hincl. right; exact Hy.
+        + apply Hstep; assumption.
+        + destruct Hor as [[->|Hin]|(t' & Ht' & Hp')].
+          * right. destruct Ia as (Ca & Sa & Ga).
+            destruct Ca as (Da & _).
+            destruct (branch_on_spec a u d) as (t & T1 & T2 & T3 & T4 & T5 & T6).
+            { intros x Hx. apply (D_next _ _ _ Da x Hx). }
+            set (b := branch_on st_eqb inp a u d) in *.
+            assert (Gab : gr a b) by apply gr_branch_on.
+            assert (Gmb : gr m b) by (eapply gr_trans; eauto).
+            exists t. split; [exact T1|].
+            apply (dp_snoc b 0 0 rs ds u s' d (length (m_edges a)) t).
+            -- eapply dpath_gr; eauto.
+            -- rewrite (gr_layers _ _ Gmb). exact Hlay.
+            -- exact T2.
+            -- lia.
+            -- exact T3.
+            -- rewrite T4. reflexivity.
+            -- rewrite T4. reflexivity.
+            -- rewrite T4. nsimpl. rewrite (gr_state _ _ u Ga Hulen). fold state. exact Scost.
+            -- rewrite T5. rewrite (gr_state _ _ u Ga Hulen). exact Scov.
+          * left. exact Hin.
+          * right. pose proof (gr_branch_on a u {| d_var := var; d_val := val |}) as Gab.
+            exists t'. split; [eapply gr_next; eauto|eapply dpath_gr; eauto]. }
+    apply G; [apply incl_refl|exact Hinv2|left; exact Sd].
+  Qed.
+
+  Lemma expand_node_Cinv var (m : mdd) id :
+    Cinv (S (n_depth (gn m id))) m -> id < m_layer_end m ->
+    (exists states, next_variable pb (n_depth (gn m id)) states = Some var) ->
+    Cinv (S (n_depth (gn m id))) (expand_node st_eqb inp var m id) /\
+    stable inp m (expand_node st_eqb inp var m id).
+  Proof.
+    intros (HD & HX & Hnd & HE) Hid Hvar.
+    destruct (expand_node_inv st_eqb st_eqb_spec inp Hclean var m id HD HX Hid Hnd Hvar) as (X1 & X2 & X3 & X4).
+    split; [|exact X3]. split; [exact X1|]. split; [exact X2|]. split; [exact X4|].
+    assert (Hidlen : id < length (m_nodes m)) by (pose proof (D_le _ _ _ HD); lia).
+    unfold expand_node. cbv zeta.
+    set (state := n_state (gn m id)).
+    set (m1 := upd_node m id (fun n => set_rub n (fast_upper_bound (ci_relax inp) state))).
+    assert (Hc1 : ceq inp m m1) by (apply ceq_upd_node; intros n; apply core_eq_set_rub).
+    assert (HE1 : Einv m1) by (eapply Einv_ceq; eauto).
+    destruct (_ >? _)%Z; [|exact HE1].
+    set (m2 := add_log m1 (EvDomain var state)).
+    assert (Hc2 : ceq inp m m2) by (eapply ceq_trans; [exact Hc1|apply ceq_add_log]).
+    set (dn := S (n_depth (gn m id))).
+    assert (G : Cinv dn (fold_left (fun m0 val => branch_on st_eqb inp m0 id {| d_var := var; d_val := val |})
+                          (domain (ci_problem inp) var state) m2) /\
+                stable inp m (fold_left (fun m0 val => branch_on st_eqb inp m0 id {| d_var := var; d_val := val |})
+                          (domain (ci_problem inp) var state) m2)).
+    { apply (fold_left_inv (fun a => Cinv dn a /\ stable inp m a)).
+      - split; [|apply ceq_stable; exact Hc2].
+        split; [eapply Dg_ceq; eauto|]. split; [eapply Xinv_ceq; eauto|]. split; [|eapply Einv_ceq; eauto].
+        intros k Hk. destruct Hc2 as ((_ & _ & _ & A4) & Hn & _). rewrite Hn in Hk.
+        destruct (A4 k) as (_ & _ & _ & _ & _ & _ & c7). rewrite <- c7. apply Hnd; exact Hk.
+      - intros a val Hval (Ca & Sa).
+        pose proof Sa as (s1 & s2 & s3 & s4 & s5).
+        destruct (s4 id Hidlen) as [Hs Hdp].
+        assert (Hdn : dn = S (n_depth (gn a id))) by (unfold dn; rewrite Hdp; reflexivity).
+        rewrite Hdn in Ca.
+        destruct (branch_on_Cinv a id {| d_var := var; d_val := val |} Ca) as [C' S'].
+        + rewrite s1. exact Hid.
+        + rewrite Hs. apply In_in_domain. exact Hval.
+        + rewrite Hdp. exact Hvar.
+        + split; [rewrite Hdn; exact C'|eapply stable_trans; eauto]. }
+    destruct G as ((_ & _ & _ & G) & _). exact G.
+  Qed.
+
+  (* ---------------------------------------------------------------- 2g. expanding a whole layer *)
+  Lemma root_vtop m : Dinv inp m -> (rv <= n_vtop (gn m 0))%Z.
+  Proof. intros HD. destruct (D_root _ _ _ HD) as (_ & _ & r3 & _). fold root in r3. unfold rv. lia. Qed.
+
+  Lemma expand_layer_Cinv var l d : forall (m : mdd),
+    Cinv (S d) m -> (forall id, In id l -> id < m_layer_end m /\ n_depth (gn m id) = d) ->
+    (exists states, next_variable pb d states = Some var) ->
+    Cinv (S d) (fold_left (expand_node st_eqb inp var) l m) /\
+    stable inp m (fold_left (expand_node st_eqb inp var) l m) /\
+    gr m (fold_left (expand_node st_eqb inp var) l m).
+  Proof.
+    intros m HC Hl Hv.
+    apply (fold_left_inv (fun a => Cinv (S d) a /\ stable inp m a /\ gr m a)).
+    - split; [exact HC|]. split; [apply stable_refl|apply gr_refl].
+    - intros a id Hin (Ca & Sa & Ga).
+      pose proof Sa as (s1 & s2 & s3 & s4 & s5).
+      destruct (Hl id Hin) as [Hlt Hdp].
+      assert (Hidlen : id < length (m_nodes m)).
+      { destruct HC as (HD & _). pose proof (D_le _ _ _ HD). lia. }
+      destruct (s4 id Hidlen) as [_ Hdp'].
+      assert (Hd : n_depth (gn a id) = d) by congruence.
+      destruct (expand_node_Cinv var a id) as [C' S'].
+      + rewrite Hd. exact Ca.
+      + rewrite s1. exact Hlt.
+      + rewrite Hd. exact Hv.
+      + rewrite Hd in C'. split; [exact C'|]. split; [eapply stable_trans; eauto|].
+        eapply gr_trans; [exact Ga|apply gr_expand_node].
+  Qed.
+
+  Lemma expand_layer_track var l dd (m : mdd) u ds s' v' dval h :
+    let d := {| d_var := var; d_val := dval |} in
+    Cinv (S dd) m -> (forall id, In id l -> id < m_layer_end m /\ n_depth (gn m id) = dd) ->
+    (exists states, next_variable pb dd states = Some var) ->
+    In u l -> In u (nth (length ds) (m_layers m) []) ->
+    dpath m 0 0 rs ds u s' -> frn rd rs rv ds = Some (s', v') -> rd + length ds <= N ->
+    In dval (domain pb var s') ->
+    H pb (rd + length ds) s' = Some h -> (lb < v' + h)%Z ->
+    let m' := fold_left (expand_node st_eqb inp var) l m in
+    exists t', In t' (m_next m') /\ dpath m' 0 0 rs (ds ++ [d]) t' (transition pb s' d).
+  Proof.
+    intros d HC Hl Hv Hu Hlay Hp Hr Hle Hdv Hh Hprom. cbv zeta.
+    set (P := fun a : mdd => exists t', In t' (m_next a) /\ dpath a 0 0 rs (ds ++ [d]) t' (transition pb s' d)).
+    assert (G : forall l0 a, incl l0 l -> Cinv (S dd) a -> stable inp m a -> gr m a ->
+              (In u l0 \/ P a) -> P (fold_left (expand_node st_eqb inp var) l0 a)).
+    { induction l0 as [|id l0 IH]; intros a Hincl Ca Sa Ga Hor; simpl.
+      - destruct Hor as [[]|Hor]; exact Hor.
+      - assert (Hid : In id l) by (apply Hincl; left; reflexivity).
+        pose proof Sa as (s1 & s2 & s3 & s4 & s5).
+        assert (Hlen : forall x, In x l -> x < length (m_nodes m)).
+        { intros x Hx. destruct (Hl x Hx) as [Hlt _]. destruct HC as (HD & _). pose proof (D_le _ _ _ HD). lia. }
+        assert (Hda : forall x, In x l -> n_depth (gn a x) = dd /\ x < m_layer_end a).
+        { intros x Hx. destruct (Hl x Hx) as [Hlt Hdp]. destruct (s4 x (Hlen x Hx)) as [_ Hdp'].
+          split; [congruence|rewrite s1; exact Hlt]. }
+        destruct (Hda id Hid) as [Hd Hlt].
+        destruct (expand_node_Cinv var a id) as [C' S'].
+        { rewrite Hd. exact Ca. } { exact Hlt. } { rewrite Hd. exact Hv. }
+        rewrite Hd in C'.
+        pose proof (gr_expand_node var a id) as Gab.
+        apply IH.
+        + intros y Hy. apply Hincl. right; exact Hy.
+        + exact C'.
+        + eapply stable_trans; eauto.
+        + eapply gr_trans; eauto.
+        + destruct Hor as [[->|Hin]|(t' & Ht' & Hp')].
+          * right. destruct (Hda u Hu) as [Hdu Hltu].
+            apply (expand_node_track var a u ds s' v' dval h); auto.
+            -- rewrite Hdu. exact Ca.
+            -- rewrite Hdu. exact Hv.
+            -- apply root_vtop. apply Ca.
+            -- rewrite (gr_layers _ _ Ga). exact Hlay.
+            -- eapply dpath_gr; eauto.
+          * left; exact Hin.
+          * right. exists t'. split; [eapply gr_next; eauto|eapply dpath_gr; eauto]. }
+    apply G; auto; [apply incl_refl|apply stable_refl|apply gr_refl].
+  Qed.
+
+  (* ---------------------------------------------------------------- 2h. relax_layer *)
+  Lemma gr_redirect_step merged mid (a : mdd) eid : gr a (redirect_step inp merged mid a eid).
+  Proof. unfold redirect_step. cbv zeta. eapply gr_trans; [apply gr_add_log|apply gr_append_edge]. Qed.
+
+  Lemma gr_drop_step merged mid (a : mdd) did : gr a (drop_step inp merged mid a did).
+  Proof.
+    unfold drop_step. rewrite redirect_edges_fold.
+    set (a1 := upd_node a did (fun n => set_flags n (fl_set_deleted (n_flags n) true))).
+    apply (gr_trans a a1); [unfold a1; apply gr_upd_node; intros; reflexivity|].
+    apply gr_fold. intros; apply gr_redirect_step.
+  Qed.
+
+  Definition Rinv (mid : nat) (b : mdd) : Prop :=
+    Einv b /\ m_layer_end b <= mid /\ mid < length (m_nodes b) /\ f_relaxed (n_flags (gn b mid)) = true.
+
+  Lemma Rinv_redirect_step merged mid (b : mdd) eid :
+    Rinv mid b -> eid < length (m_edges b) -> Rinv mid (redirect_step inp merged mid b eid).
+  Proof.
+    intros (HE & H1 & H2 & H3) He. unfold redirect_step. cbv zeta.
+    match goal with |- Rinv mid (append_edge inp ?aa ?ee) => set (a1 := aa); set (e := ee) end.
+    assert (HE1 : Einv a1) by (eapply Einv_frame; [| | | |exact HE]; try reflexivity; apply (E_le _ HE)).
+    assert (Hnx : is_ex a1 mid = false).
+    { unfold is_ex, fl_is_exact. change (gn a1 mid) with (gn b mid). rewrite H3. apply andb_false_r. }
+    split; [|split; [|split]].
+    - apply Einv_append_edge; unfold e; nsimpl; auto.
+      + apply (E_from _ HE). exact He.
+      + intros Hx. rewrite Hnx in Hx. discriminate.
+    - exact H1.
+    - msimpl. rewrite upd_nth_length. exact H2.
+    - change mid with (e_to e). rewrite gn_append_same by exact H2. cbv zeta. nsimpl. exact H3.
+  Qed.
+
+  Lemma Rinv_upd_flag mid (b : mdd) id fl :
+    (forall n, f_exact (fl n) = f_exact (n_flags n) /\ f_relaxed (fl n) = f_relaxed (n_flags n)) ->
+    Rinv mid b -> Rinv mid (upd_node b id (fun n => set_flags n (fl n))).
+  Proof.
+    intros Hfl (HE & H1 & H2 & H3).
+    assert (Hc : ceq inp b (upd_node b id (fun n => set_flags n (fl n)))).
+    { apply ceq_upd_node. intros n. destruct (Hfl n). apply core_eq_set_flags_nc; assumption. }
+    split; [eapply Einv_ceq; eauto|]. split; [exact H1|]. split; [msimpl; rewrite upd_nth_length; exact H2|].
+    destruct Hc as ((_ & _ & _ & A4) & _). destruct (A4 mid) as (_ & _ & _ & _ & _ & c6 & _). congruence.
+  Qed.
+
+  Lemma Rinv_drop_step merged mid (b : mdd) did :
+    Rinv mid b -> did < length (m_nodes b) -> Rinv mid (drop_step inp merged mid b did).
+  Proof.
+    intros HR Hd. unfold drop_step. rewrite redirect_edges_fold.
+    set (b1 := upd_node b did (fun n => set_flags n (fl_set_deleted (n_flags n) true))).
+    assert (HR1 : Rinv mid b1) by (apply (Rinv_upd_flag mid b did (fun n => fl_set_deleted (n_flags n) true)); auto).
+    assert (Hd1 : did < length (m_nodes b1)) by (unfold b1; msimpl; rewrite upd_nth_length; exact Hd).
+    assert (Hall : forall eid, In eid (n_inb (gn b1 did)) -> eid < length (m_edges b1)).
+    { intros eid Hin. destruct HR1 as (HE1 & _). apply (E_inb _ HE1 did eid Hd1 Hin). }
+    apply (fold_left_inv (fun a => Rinv mid a /\ gr b1 a)).
+    - split; [exact HR1|apply gr_refl].
+    - intros a eid Hin (Ra & Ga). split.
+      + apply Rinv_redirect_step; [exact Ra|]. pose proof (gr_edges_len _ _ Ga). specialize (Hall eid Hin). lia.
+      + eapply gr_trans; [exact Ga|apply gr_redirect_step].
   Qed.
